@@ -16,4 +16,6 @@ def run(ctx):
     import planlevel
     import prune_corr
     planlevel.plan_campaign(ctx, {"C01"}, n_quick=100, n_thorough=2000)
+    import translate_prune
+    translate_prune.check(ctx)       # pruning.py's literal elision translated to Gallina and linked to Cache/Prune.v by a theorem
     prune_corr.run_prune(ctx)       # plan -> run graph: dependencies between surviving nodes (Cache/Prune.v)
